@@ -295,7 +295,7 @@ func (cs crashScen) Exec(w *World, cc any, prop string) *Result {
 						ks[k] = true
 					}
 				} else {
-					for _, k := range []int{0, 1, p.Len / 2, p.Len - 1, p.Len} {
+					for _, k := range []int{0, 1, p.Len / 2, p.Len - 4, p.Len - 3, p.Len - 2, p.Len - 1, p.Len} {
 						if k >= 0 && k <= p.Len {
 							ks[k] = true
 						}
